@@ -53,7 +53,10 @@ Inductive gval :=
 | VInts (l : list Z)                    (* []int *)
 | VOps (l : option (list Z))            (* key.Ops; None = typed nil *)
 | VMap (m : list (label * gval))        (* map[any]any / key.CoseMap *)
-| VOther (tag : string).                (* anything else: []int64, struct, time.Time, *big.Int, cbor.Tag ... *)
+| VOther (tag : string)                 (* anything else: []int64, struct, time.Time ... *)
+| VTag (n : Z) (v : gval)               (* cbor.Tag{Number, Content} *)
+| VSimple (n : Z)                       (* cbor.SimpleValue *)
+| VBig (z : Z).                         (* big.Int (CBOR integers beyond int64, bignum tags) *)
 
 Definition cosemap := list (label * gval).
 
